@@ -67,6 +67,13 @@ func mutants(p *gen.Program, render func() string) []mutant {
 				{"unused-declaration", &gen.RawStmt{Text: "counter zz_unused_nested"}, false},
 				{"redeclared-name", &gen.RawStmt{Text: "counter zz_twice\ncounter zz_twice\nzz_twice++"}, b.InDef || pos != 0},
 				{"int-div-by-literal-zero", &gen.Cond{C: &gen.Raw{Text: "3 / 0 > 1"}}, false},
+				// a defect inside an operand whose value cannot matter
+				{"undeclared-metric", &gen.Cond{C: &gen.Raw{Text: "zz_undeclared * 0 == 0"}}, pos != 0},
+				{"undeclared-metric", &gen.Cond{C: &gen.Raw{Text: "0 * zz_undeclared == 0"}}, pos != 0},
+				{"undeclared-metric", &gen.Cond{C: &gen.Raw{Text: "zz_undeclared ** 0 == 1"}}, pos != 0},
+				{"capture-index-too-large", &gen.Cond{C: &gen.Raw{Text: "$9 * 0 == 0"}}, pos != 0},
+				{"int-div-by-literal-zero", &gen.Cond{C: &gen.Raw{Text: "(3 / 0) * 0 == 0"}}, pos != 0},
+				{"int-div-by-literal-zero", &gen.Cond{C: &gen.Raw{Text: "2 > 1 || 3 / 0 > 1"}}, pos != 0},
 				{"int-mod-by-literal-zero", &gen.Cond{C: &gen.Raw{Text: "7 % 0 == 1"}}, pos != 0},
 			}
 			for _, st := range stmts {
@@ -172,6 +179,13 @@ func mutants(p *gen.Program, render func() string) []mutant {
 			}
 			pt.Parts = []gen.PatPart{{Lit: pad(1024)}}
 			add("regex-too-long", fmt.Sprintf("pattern#%d default-limit", pi))
+			// over the limit in bytes, under it in characters
+			mb := pt.Regex
+			for len(mb) <= 1024 {
+				mb += "é?"
+			}
+			pt.Parts = []gen.PatPart{{Lit: mb}}
+			add("regex-too-long", fmt.Sprintf("pattern#%d default-limit, multi-byte characters", pi))
 			for _, lim := range []int{len(pt.Regex) + 3, 200} {
 				pt.Parts = []gen.PatPart{{Lit: pad(lim)}}
 				add("regex-too-long", fmt.Sprintf("pattern#%d limit=%d", pi, lim), compiler.MaxRegexpLength(lim))
